@@ -74,6 +74,7 @@ Start == /\ pc = "build"
                          /\ Setup(s)
 
 Next == AddEdge \/ Start \/ SearchNext
+NextGen == AddEdge \/ Start        \* scenario export only: build phase, then the first state of each search
 Spec == Init /\ [][Next]_svars
 
 (* termination measure: outside the relax phase every step shrinks the queue, lowers a label or ends *)
